@@ -203,7 +203,7 @@ STATS = {"branch_queries": 0, "branch_time": 0.0, "paths": 0}
 class Ctx:
     cur = None
     RLIMIT = int(os.environ.get("SYMSIG_BRANCH_RLIMIT", "3000000"))
-    WALL_S = float(os.environ.get("SYMSIG_BRANCH_WALL_S", "8"))
+    WALL_S = float(os.environ.get("SYMSIG_BRANCH_WALL_S", "40"))
 
     def __init__(self, prefix=()):
         self.prefix = list(prefix)
@@ -219,6 +219,7 @@ class Ctx:
         self.nq = 0
         self.unknown_branches = 0
         self.notes = []
+        self.rules = {}         # aux variable id -> Poly r: the path condition contains  var^2 == r  (used by reduce_b)
 
     # -- constraints
     def add(self, b, note=None):
@@ -345,6 +346,8 @@ class Ctx:
             self.add(B.cmp("<=", -s.n))
             # s^2 * dpoly == n
             self.add(B.cmp("==", s.n * s.n * r.dpoly() - r.n))
+            if not r.d:
+                self.rules[_single_var(s.n)] = r.n
             self._memo[key] = s
         return s
 
@@ -357,12 +360,58 @@ class Ctx:
         self.assume(B.cmp("<=", -r.sign_poly()), "registered square root >= 0")
         self._memo[("sqrt", v.key())] = r
 
+    TRIG_DENOM = None      # harness option: D > 0 enables the angle-addition decomposition exp(i sum c_m m) = prod u_m^(c_m D)
+    TRIG_SIN_BOUND = False  # harness option: add sin(r)^2 <= r^2 for polynomial arguments
+
+    def _trig_base(self, mono):
+        """unit complex number u = exp(i * mono / D) for a non-constant monomial (contract: |u| = 1, mono = 0 -> u = 1)"""
+        key = ("trigbase", mono)
+        v = self._memo.get(key)
+        if v is None:
+            mp = A.Poly({mono: Fraction(1)})
+            c = self.fresh("cosb", "cos(%r/%d)" % (mp, self.TRIG_DENOM))
+            s = self.fresh("sinb", "sin(%r/%d)" % (mp, self.TRIG_DENOM))
+            self.add(B.cmp("==", c.n * c.n + s.n * s.n - P1))
+            self.add(B.implies(B.cmp("==", mp), B.and_(B.cmp("==", c.n - P1), B.cmp("==", s.n))))
+            self.rules[_single_var(c.n)] = P1 - s.n * s.n
+            v = self._memo[key] = (c, s)
+        return v
+
+    def _trig_decomposed(self, r):
+        """exp(i r) for a polynomial r whose non-constant coefficients are multiples of 1/D (|k| <= 8), as a product of
+        base units (exp is a homomorphism; distinct monomials get independent units, an over-approximation); None otherwise"""
+        D = self.TRIG_DENOM
+        if not D or r.d:
+            return None
+        parts = []
+        for m, c in r.n.t.items():
+            if m == ():
+                continue
+            k = c * D
+            if k.denominator != 1 or abs(k) > 8:
+                return None
+            parts.append((m, int(k)))
+        c0 = float(r.n.t.get((), 0))
+        re, im = (R1, R0) if c0 == 0 else (Rat.const(Fraction(math.cos(c0))), Rat.const(Fraction(math.sin(c0))))
+        for m, k in sorted(parts):
+            bc, bs = self._trig_base(m)
+            if k < 0:
+                bs, k = -bs, -k
+            for _ in range(k):
+                re, im = re * bc - im * bs, re * bs + im * bc
+        return re, im
+
     def trig(self, r):
         """(cos r, sin r) contract stub for a real Rat argument"""
         key = ("trig", r.key())
         v = self._memo.get(key)
         if v is None:
-            if r.is_const():
+            dec = None if r.is_const() else self._trig_decomposed(r)
+            if dec is not None:
+                v = dec
+                if self.TRIG_SIN_BOUND:
+                    self.add(B.cmp("<=", v[1].n * v[1].n - r.n * r.n))
+            elif r.is_const():
                 c = float(r.cval())
                 v = (Rat.const(Fraction(math.cos(c))), Rat.const(Fraction(math.sin(c))))
                 if c == 0:
@@ -375,11 +424,96 @@ class Ctx:
                     c = self.fresh("cos", "cos(%s)" % (repr(r)[:60]))
                     s = self.fresh("sin", "sin(%s)" % (repr(r)[:60]))
                     self.add(B.cmp("==", c.n * c.n + s.n * s.n - P1))
+                    self.rules[_single_var(c.n)] = P1 - s.n * s.n
                     # r == 0 -> c == 1, s == 0
                     self.add(B.implies(B.cmp("==", r.n), B.and_(B.cmp("==", c.n - P1), B.cmp("==", s.n))))
+                    if self.TRIG_SIN_BOUND:
+                        dp = r.dpoly()
+                        self.add(B.cmp("<=", s.n * s.n * dp * dp - r.n * r.n))
                     v = (c, s)
             self._memo[key] = v
         return v
+
+    def angle(self, re, im):
+        """np.angle(re + i im) contract stub: a fresh real theta whose (cos, sin) satisfy cos*|z| = re, sin*|z| = im,
+        cos^2 + sin^2 = 1 and (z = 0 -> theta = 0, cos = 1, sin = 0)"""
+        key = ("angle", re.key(), im.key())
+        th = self._memo.get(key)
+        if th is None:
+            t = self.sqrt(re * re + im * im)
+            th = self.fresh("ang", "angle(%s + i %s)" % (repr(re)[:40], repr(im)[:40]))
+            c = self.fresh("cosa", "cos(angle)")
+            s = self.fresh("sina", "sin(angle)")
+            self.add(B.cmp("==", c.n * c.n + s.n * s.n - P1))
+            self.rules[_single_var(c.n)] = P1 - s.n * s.n
+            self.add(_rat_eq(c * t, re))
+            self.add(_rat_eq(s * t, im))
+            z0 = B.and_(_rat_eq(re, R0), _rat_eq(im, R0))
+            self.add(B.implies(z0, B.and_(B.cmp("==", c.n - P1), B.cmp("==", s.n), B.cmp("==", th.n))))
+            self._memo[("trig", th.key())] = (c, s)
+            self._memo[("trig", (-th).key())] = (c, -s)
+            self._memo[key] = th
+        return th
+
+
+def _single_var(p):
+    (m, c), = p.t.items()
+    (v, k), = m
+    assert k == 1 and c == 1
+    return v
+
+
+def reduce_poly(p, rules):
+    """normal form of Poly p modulo the rewrite rules  v^2 -> rules[v]  (equalities of the path condition; the rules are
+    acyclic by creation order and their left-hand sides are squares of distinct variables, so the rewriting is confluent)"""
+    if not rules:
+        return p
+    for _ in range(200):
+        hit = False
+        out = P0
+        acc = {}
+        for m, c in p.t.items():
+            red = None
+            for i, (v, k) in enumerate(m):
+                if k >= 2 and v in rules:
+                    red = (i, v, k)
+                    break
+            if red is None:
+                acc[m] = acc.get(m, 0) + c
+                continue
+            hit = True
+            i, v, k = red
+            rest = m[:i] + (((v, k % 2),) if k % 2 else ()) + m[i + 1:]
+            term = A.Poly({rest: c})
+            rp = rules[v]
+            for _j in range(k // 2):
+                term = term * rp
+            out = out + term
+        p = A.Poly({m: c for m, c in acc.items() if c}) + out
+        if not hit:
+            return p
+    raise Unsupported("reduce_poly did not terminate")
+
+
+def reduce_b(b, rules):
+    """apply reduce_poly to both sides of every atom (sound: the rules are consequences of the path condition)"""
+    if not rules or b.k == "c":
+        return b
+    if b.k == "p":
+        op, p, q = b.a
+        p2, q2 = reduce_poly(p, rules), reduce_poly(q, rules)
+        if p2 is p and q2 is q:
+            return b
+        if p2.t == q2.t:
+            return B.cmp(op, P0)
+        return B.cmp2(op, p2, q2) if (q2.t) else B.cmp(op, p2)
+    if b.k == "and":
+        return B.and_(*[reduce_b(x, rules) for x in b.a])
+    if b.k == "or":
+        return B.or_(*[reduce_b(x, rules) for x in b.a])
+    if b.k == "not":
+        return B.not_(reduce_b(b.a, rules))
+    return b
 
 
 class _EnvById:
@@ -770,6 +904,14 @@ class SymK:
             raise Unsupported("exp of a symbolic value with non-zero real part")
         c, s = cur().trig(self.c[1])
         return SymK((c, s))
+
+    def angle(self):
+        if self.is_const():
+            import cmath
+            return SymK.lift(cmath.phase(self.cvalue()))
+        if FIELD.deg != 2:
+            raise Unsupported("angle in Q(zeta_%d)" % FIELD.N)
+        return SymK.real_(cur().angle(self.c[0], self.c[1]))
 
     def cos(self):
         if self.is_const():
